@@ -4,6 +4,7 @@ use crate::core::{Space, Tier};
 
 pub mod c01;
 pub mod c02;
+pub mod c03;
 pub mod c04;
 pub mod c05;
 pub mod c11;
@@ -15,7 +16,7 @@ pub mod c19;
 pub mod c20;
 pub mod gprog;
 
-pub const ALL: &[&str] = &["C01", "C02", "C04", "C05", "C11", "C12", "C14", "C15", "C16", "C19", "C20"];
+pub const ALL: &[&str] = &["C01", "C02", "C03", "C04", "C05", "C11", "C12", "C14", "C15", "C16", "C19", "C20"];
 
 pub fn intern(id: &str) -> Option<&'static str> {
     ALL.iter().copied().find(|p| *p == id)
@@ -32,6 +33,7 @@ pub fn meta(prop: &str) -> Option<Meta> {
     match prop {
         "C01" => Some(c01::meta()),
         "C02" => Some(c02::meta()),
+        "C03" => Some(c03::meta()),
         "C04" => Some(c04::meta()),
         "C05" => Some(c05::meta()),
         "C11" => Some(c11::meta()),
@@ -49,6 +51,7 @@ pub fn spaces(prop: &str, tier: Tier, seed: u64) -> Vec<Box<dyn Space>> {
     match prop {
         "C01" => c01::spaces(tier, seed),
         "C02" => c02::spaces(tier, seed),
+        "C03" => c03::spaces(tier, seed),
         "C04" => c04::spaces(tier, seed),
         "C05" => c05::spaces(tier, seed),
         "C11" => c11::spaces(tier, seed),
@@ -65,7 +68,7 @@ pub fn spaces(prop: &str, tier: Tier, seed: u64) -> Vec<Box<dyn Space>> {
 /// Self-checks of reference models and alphabets; a failure is a machinery error (exit 2).
 pub fn self_check(prop: &str) -> Result<(), String> {
     match prop {
-        "C01" | "C02" | "C11" | "C12" => c01::self_check(),
+        "C01" | "C02" | "C03" | "C11" | "C12" => c01::self_check(),
         "C05" => c05::self_check(),
         "C15" => c15::self_check(),
         "C20" => c20::self_check(),
